@@ -298,3 +298,106 @@ func paramOfType(fn *ssa.Function, pred func(types.Type) bool) *ssa.Parameter {
 func isErrorType(t types.Type) bool {
 	return types.Identical(t, types.Universe.Lookup("error").Type())
 }
+
+// Event is a named set of instructions in one function.
+type Event struct {
+	Name   string
+	Instrs []ssa.Instruction
+	// Skip: edges on which the step is legitimately not applicable (e.g. the
+	// `field == nil` edge of an `if field != nil { step }` guard); crossing
+	// one counts as having passed the step.
+	Skip []kit.Edge
+}
+
+// Sequence checks that in fn every instruction of each event is preceded on
+// all paths by some instruction of the previous event (a chain of
+// must-pass-through obligations). Missing events fail.
+func (c *Ctx) Sequence(rule, keyPrefix string, fn *ssa.Function, events []Event) {
+	for i, ev := range events {
+		if len(ev.Instrs) == 0 {
+			c.R.Fail(rule, keyPrefix+": "+ev.Name, c.Pos(fn.Pos()), "step `"+ev.Name+"` not found in "+kit.FuncKey(fn)+" (removed or no longer recognisable)")
+			continue
+		}
+		if i == 0 {
+			c.R.Pass(rule, keyPrefix+": "+ev.Name, c.Pos(posOf(ev.Instrs[0])), "first step present", false)
+			continue
+		}
+		prev := events[i-1]
+		if len(prev.Instrs) == 0 {
+			continue
+		}
+		g := kit.NewGates()
+		for _, p := range prev.Instrs {
+			g.AddInstr(p, "")
+		}
+		g.AddEdges(prev.Skip, "")
+		c.Dominated(rule, keyPrefix+": "+prev.Name+" -> "+ev.Name, ev.Instrs, g, "passing `"+prev.Name+"` first")
+	}
+}
+
+// callsOfFieldFunc lists calls in fn whose callee is the function value loaded
+// from field (e.g. s.stopStream()).
+func callsOfFieldFunc(fn *ssa.Function, field *types.Var) []ssa.Instruction {
+	return kit.Instrs(fn, func(in ssa.Instruction) bool {
+		ci, ok := in.(ssa.CallInstruction)
+		if !ok {
+			return false
+		}
+		cm := ci.Common()
+		return !cm.IsInvoke() && kit.IsFieldLoad(cm.Value, field)
+	})
+}
+
+// recvsFromField lists receive operations on the channel loaded from field.
+func recvsFromField(fn *ssa.Function, field *types.Var) []ssa.Instruction {
+	return kit.Instrs(fn, func(in ssa.Instruction) bool {
+		u, ok := in.(*ssa.UnOp)
+		return ok && u.Op == token.ARROW && kit.IsFieldLoad(u.X, field)
+	})
+}
+
+// storesToField lists stores to field with a value accepted by pred (nil = any).
+func storesToField(fn *ssa.Function, field *types.Var, pred func(ssa.Value) bool) []ssa.Instruction {
+	var out []ssa.Instruction
+	for _, st := range kit.FieldStores(fn, field) {
+		if pred == nil || pred(st.Val) {
+			out = append(out, st)
+		}
+	}
+	return out
+}
+
+// Guarded runs the lockset rule for one function.
+func (c *Ctx) Guarded(rule string, fn *ssa.Function, entry []string, mutexField string, fields []*types.Var, exempt map[string]string) int {
+	if fn == nil {
+		return 0
+	}
+	spec := c.W.StdLockSpec()
+	n := 0
+	per := map[string]int{}
+	for _, a := range kit.CheckGuarded(fn, spec, entry, mutexField, fields) {
+		n++
+		id := kit.FuncKey(fn) + ": " + a.Base + "." + a.Field.Name()
+		per[id]++
+		key := fmt.Sprintf("%s#%d", id, per[id])
+		if a.OK {
+			c.R.Pass(rule, key, c.Pos(posOf(a.Instr)), "held "+a.Held, true)
+			continue
+		}
+		if why, ok := exempt[kit.FuncKey(fn)+":"+a.Field.Name()]; ok {
+			c.R.Pass(rule, key, c.Pos(posOf(a.Instr)), "tabled exception: "+why, false)
+			continue
+		}
+		c.R.Fail(rule, id, c.Pos(posOf(a.Instr)), fmt.Sprintf("%s.%s accessed without %s.%s held on every path (held: %s)", a.Base, a.Field.Name(), a.Base, mutexField, a.Held))
+	}
+	return n
+}
+
+// nilFieldEdges returns the edges of fn on which a load of field is nil.
+func nilFieldEdges(fn *ssa.Function, field *types.Var) []kit.Edge {
+	var out []kit.Edge
+	for _, l := range kit.FieldLoads(fn, field) {
+		out = append(out, kit.NilEdges(l, true)...)
+	}
+	return out
+}
